@@ -32,6 +32,220 @@ type Q struct {
 	Ps      []Param // def: formal parameters
 	Args    []*Q    // callf: actual parameters
 	NoElse  bool    // if: written without an else clause (e.Else == nil in query.go); C is then `.`
+	Ents    []Ent   // obj: the entries of an object construction
+	Pat     *Pat    // bindp: the destructuring pattern (A = source, B = body)
+	Parts   []SPart // str: an interpolated string "lit\(q)lit..." (F = "" | "@text" | "@json")
+}
+
+// a part of an interpolated string: a literal segment or an interpolated query
+type SPart struct {
+	Lit string
+	Q   *Q
+}
+
+// compileString: "a\(q)b" is "a" + (q | tostring) + "b" (left-nested +; tojson with @json)
+func (q *Q) strDesugar() *Q {
+	f := "tostring"
+	if q.F == "@json" {
+		f = "tojson"
+	}
+	var t *Q
+	for _, p := range q.Parts {
+		var e *Q
+		if p.Q == nil {
+			e = &Q{K: "c", V: p.Lit}
+		} else {
+			e = &Q{K: "pipe", A: p.Q, B: &Q{K: "call0", F: f}}
+		}
+		if t == nil {
+			t = e
+		} else {
+			t = &Q{K: "binop", F: "add", SA: t, SB: e}
+		}
+	}
+	return t
+}
+
+// a destructuring pattern.  K: "v" $vN ; "a" [p, ...] ; "o" {entries}
+type Pat struct {
+	K     string
+	N     int
+	Elems []*Pat
+	Ents  []PEnt
+}
+
+// an entry of an object pattern.  Kind: "k" `key: P` / `"key": P` ; "var" `$vN` (= "vN": $vN) ; "kv" `$vN: P`
+type PEnt struct {
+	Kind string
+	Key  string
+	N    int
+	P    *Pat
+}
+
+func (p *Pat) sexp() string {
+	switch p.K {
+	case "v":
+		return fmt.Sprintf("(pv %d)", p.N)
+	case "a":
+		s := "(pa"
+		for _, e := range p.Elems {
+			s += " " + e.sexp()
+		}
+		return s + ")"
+	case "o":
+		s := "(po"
+		for _, e := range p.Ents {
+			switch e.Kind {
+			case "k":
+				s += " (k " + Hexs([]byte(e.Key)) + " " + e.P.sexp() + ")"
+			case "var":
+				s += fmt.Sprintf(" (k %s (pv %d))", Hexs([]byte(fmt.Sprintf("v%d", e.N))), e.N)
+			case "kv":
+				s += fmt.Sprintf(" (kv %s %d %s)", Hexs([]byte(fmt.Sprintf("v%d", e.N))), e.N, e.P.sexp())
+			}
+		}
+		return s + ")"
+	}
+	panic(p.K)
+}
+
+func (p *Pat) text(r *Rng) string {
+	switch p.K {
+	case "v":
+		return fmt.Sprintf("$v%d", p.N)
+	case "a":
+		xs := make([]string, len(p.Elems))
+		for i, e := range p.Elems {
+			xs[i] = e.text(r)
+		}
+		return "[" + strings.Join(xs, ", ") + "]"
+	case "o":
+		xs := make([]string, len(p.Ents))
+		for i, e := range p.Ents {
+			switch e.Kind {
+			case "k":
+				key := e.Key
+				if r.Chance(1, 2) {
+					key = `"` + key + `"`
+				}
+				xs[i] = key + ": " + e.P.text(r)
+			case "var":
+				xs[i] = fmt.Sprintf("$v%d", e.N)
+			case "kv":
+				xs[i] = fmt.Sprintf("$v%d: %s", e.N, e.P.text(r))
+			}
+		}
+		return "{" + strings.Join(xs, ", ") + "}"
+	}
+	panic(p.K)
+}
+
+// the variables a pattern binds
+func (p *Pat) vars() []int {
+	switch p.K {
+	case "v":
+		return []int{p.N}
+	case "a":
+		var out []int
+		for _, e := range p.Elems {
+			out = append(out, e.vars()...)
+		}
+		return out
+	}
+	var out []int
+	for _, e := range p.Ents {
+		if e.Kind != "k" {
+			out = append(out, e.N)
+		}
+		if e.P != nil {
+			out = append(out, e.P.vars()...)
+		}
+	}
+	return out
+}
+
+// a random pattern with distinct variables (numbered from *next on); top: not a plain variable
+func randPat(r *Rng, depth int, next *int, top bool) *Pat {
+	fresh := func() int { n := *next; *next++; return n }
+	if !top && (depth <= 0 || r.Chance(1, 2)) {
+		return &Pat{K: "v", N: fresh()}
+	}
+	if r.Chance(1, 2) {
+		p := &Pat{K: "a"}
+		for i := 1 + r.Intn(3); i > 0; i-- {
+			p.Elems = append(p.Elems, randPat(r, depth-1, next, false))
+		}
+		return p
+	}
+	p := &Pat{K: "o"}
+	for i := 1 + r.Intn(3); i > 0; i-- {
+		switch r.Intn(4) {
+		case 0:
+			p.Ents = append(p.Ents, PEnt{Kind: "var", N: fresh()})
+		case 1:
+			n := fresh()
+			p.Ents = append(p.Ents, PEnt{Kind: "kv", N: n, P: randPat(r, depth-1, next, false)})
+		default:
+			p.Ents = append(p.Ents, PEnt{Kind: "k", Key: objKeys[r.Intn(len(objKeys))], P: randPat(r, depth-1, next, false)})
+		}
+	}
+	return p
+}
+
+// sources worth destructuring
+var destructPool = []any{[]any{1, 2}, []any{[]any{1, 2}, map[string]any{"a": 3}}, map[string]any{"a": []any{1, 2}, "b": map[string]any{"a": nil}},
+	map[string]any{"a": 1, "v10": 2, "v11": []any{3}}, []any{nil, map[string]any{"b": 1}}, "a", 1, nil}
+
+// an entry of {...}.  Kind: "k" `a: V` / `"a": V` ; "short" `a` / `"a"` (= a: .a) ; "var" `$vN` (= "vN": $vN) ;
+// "q" `(KQ): V` ; "varkey" `$vN: V` (the key is the VALUE of $vN, compiled like ($vN): V)
+type Ent struct {
+	Kind string
+	Key  string
+	N    int
+	KQ   *Q
+	V    *Q
+}
+
+func (e Ent) sexp() string {
+	switch e.Kind {
+	case "k":
+		return "(k " + Hexs([]byte(e.Key)) + " " + e.V.Sexp() + ")"
+	case "short":
+		return "(k " + Hexs([]byte(e.Key)) + " (index id " + valSexp(e.Key) + "))"
+	case "var":
+		return fmt.Sprintf("(k %s (var %d))", Hexs([]byte(fmt.Sprintf("v%d", e.N))), e.N)
+	case "q":
+		return "(q " + e.KQ.Sexp() + " " + e.V.Sexp() + ")"
+	case "varkey":
+		return fmt.Sprintf("(q (var %d) %s)", e.N, e.V.Sexp())
+	case "strkey": // "a\(q)": V  -- compileString(key) is the desugared concatenation, compiled like a key query
+		return "(q " + e.KQ.Sexp() + " " + e.V.Sexp() + ")"
+	}
+	panic(e.Kind)
+}
+
+func (e Ent) text(r *Rng) string {
+	key := e.Key
+	if e.Kind == "k" || e.Kind == "short" {
+		if r.Chance(1, 2) {
+			key = `"` + key + `"`
+		}
+	}
+	switch e.Kind {
+	case "k":
+		return key + ": " + e.V.P(r)
+	case "short":
+		return key
+	case "var":
+		return fmt.Sprintf("$v%d", e.N)
+	case "q":
+		return "(" + e.KQ.T(r) + "): " + e.V.P(r)
+	case "varkey":
+		return fmt.Sprintf("$v%d: %s", e.N, e.V.P(r))
+	case "strkey":
+		return e.KQ.T(r) + ": " + e.V.P(r)
+	}
+	panic(e.Kind)
 }
 
 // value parameters (def f($x): ...) are generated when this switch is on (covered by Compile.comp and the theorem)
@@ -114,6 +328,20 @@ func (q *Q) Sexp() string {
 		return fmt.Sprintf("(break %d)", q.N)
 	case "bind":
 		return fmt.Sprintf("(bind %s %d %s)", q.A.Sexp(), q.N, q.B.Sexp())
+	case "str":
+		return q.strDesugar().Sexp()
+	case "indexq":
+		return "(indexq " + q.A.Sexp() + " " + q.B.Sexp() + ")"
+	case "slice":
+		bd := func(b *Q) string {
+			if b == nil {
+				return "(c null)"
+			}
+			return b.Sexp()
+		}
+		return "(slice " + q.A.Sexp() + " " + bd(q.B) + " " + bd(q.C) + ")"
+	case "bindp":
+		return "(bindp " + q.A.Sexp() + " " + q.Pat.sexp() + " " + q.B.Sexp() + ")"
 	case "var":
 		return fmt.Sprintf("(var %d)", q.N)
 	case "call0":
@@ -133,6 +361,12 @@ func (q *Q) Sexp() string {
 			}
 		}
 		return fmt.Sprintf("(defp %d (%s) %s %s)", q.N, strings.Join(ps, " "), q.A.Sexp(), q.B.Sexp())
+	case "obj":
+		s := "(obj"
+		for _, e := range q.Ents {
+			s += " " + e.sexp()
+		}
+		return s + ")"
 	case "callf":
 		s := fmt.Sprintf("(callf %d", q.N)
 		for _, a := range q.Args {
@@ -160,6 +394,15 @@ func (q *Q) sargSexp() string {
 func keyJq(v any) string {
 	if s, ok := v.(string); ok {
 		return `["` + s + `"]`
+	}
+	if m, ok := v.(map[string]any); ok { // a slice with literal / absent bounds: the key {"start": s, "end": e}
+		b := func(x any) string {
+			if x == nil {
+				return ""
+			}
+			return fmt.Sprint(x)
+		}
+		return "[" + b(m["start"]) + ":" + b(m["end"]) + "]"
 	}
 	return fmt.Sprintf("[%d]", v)
 }
@@ -197,9 +440,9 @@ func (q *Q) P(r *Rng) string {
 			return "(" + valJq(q.V) + ")"
 		}
 		return valJq(q.V)
-	case "empty", "var", "call0", "break", "arr", "callf":
+	case "empty", "var", "call0", "break", "arr", "callf", "obj", "str":
 		return q.T(r)
-	case "iter", "index":
+	case "iter", "index", "indexq", "slice":
 		if q.A.K == "id" {
 			return q.T(r)
 		}
@@ -216,6 +459,15 @@ func (q *Q) T(r *Rng) string {
 	case "empty":
 		return "empty"
 	case "pipe":
+		if q.A.K == "index" && q.A.A.K == "id" && q.B.K == "try" && q.B.B == nil && q.B.A.A != nil && q.B.A.A.K == "id" &&
+			(q.B.A.K == "iter" || q.B.A.K == "index") && r.Chance(1, 2) {
+			// .a.b?  is  .a | try .b  (compileTermSuffix peels the last suffix off the term)
+			suffix := "[]"
+			if q.B.A.K == "index" {
+				suffix = keyJq(q.B.A.V)
+			}
+			return "." + keyJq(q.A.V) + suffix + "?"
+		}
 		return q.A.P(r) + " | " + q.B.P(r)
 	case "comma":
 		return q.A.P(r) + " , " + q.B.P(r)
@@ -234,6 +486,30 @@ func (q *Q) T(r *Rng) string {
 			return "." + keyJq(q.V)
 		}
 		return "(" + q.A.T(r) + ")" + keyJq(q.V)
+	case "indexq":
+		t := "."
+		if q.A.K != "id" {
+			t = "(" + q.A.T(r) + ")"
+		}
+		if q.B.K == "str" && q.B.F == "" && r.Chance(1, 2) { // ."a\(q)"  (Index.Str with interpolation)
+			if t == "." {
+				return "." + q.B.T(r)
+			}
+			return t + "." + q.B.T(r)
+		}
+		return t + "[" + q.B.T(r) + "]"
+	case "slice":
+		t := "."
+		if q.A.K != "id" {
+			t = "(" + q.A.T(r) + ")"
+		}
+		bd := func(b *Q) string {
+			if b == nil {
+				return ""
+			}
+			return b.P(r)
+		}
+		return t + "[" + bd(q.B) + ":" + bd(q.C) + "]"
 	case "if":
 		s := "if " + q.A.P(r) + " then " + q.B.P(r)
 		e, noelse := q.C, q.NoElse
@@ -268,6 +544,22 @@ func (q *Q) T(r *Rng) string {
 		return fmt.Sprintf("break $l%d", q.N)
 	case "bind":
 		return fmt.Sprintf("%s as $v%d | %s", q.A.P(r), q.N, q.B.P(r))
+	case "str":
+		t := q.F
+		if t != "" {
+			t += " "
+		}
+		t += `"`
+		for _, p := range q.Parts {
+			if p.Q == nil {
+				t += p.Lit
+			} else {
+				t += `\(` + p.Q.T(r) + ")"
+			}
+		}
+		return t + `"`
+	case "bindp":
+		return q.A.P(r) + " as " + q.Pat.text(r) + " | " + q.B.P(r)
 	case "var":
 		return fmt.Sprintf("$v%d", q.N)
 	case "call0":
@@ -287,6 +579,12 @@ func (q *Q) T(r *Rng) string {
 			}
 		}
 		return fmt.Sprintf("def f%d(%s): %s; %s", q.N, strings.Join(ps, "; "), q.A.T(r), q.B.T(r))
+	case "obj":
+		es := make([]string, len(q.Ents))
+		for i, e := range q.Ents {
+			es[i] = e.text(r)
+		}
+		return "{" + strings.Join(es, ", ") + "}"
 	case "callf":
 		if len(q.Args) == 0 {
 			return fmt.Sprintf("f%d", q.N)
@@ -306,12 +604,19 @@ func (q *Q) msgfree() bool {
 		return true
 	}
 	switch q.K {
-	case "iter", "index", "binop":
+	case "iter", "index", "binop", "bindp", "str", "indexq", "slice":
 		return false
 	case "call0":
 		return q.F == "error"
 	case "callf":
 		return false
+	case "obj":
+		for _, e := range q.Ents {
+			if e.Kind == "q" || e.Kind == "varkey" || e.Kind == "short" || e.Kind == "strkey" || !e.V.msgfree() {
+				return false
+			}
+		}
+		return true
 	}
 	for _, a := range q.Args {
 		if !a.msgfree() {
@@ -425,6 +730,13 @@ func enum(n int, s scope, r *Rng) []*Q {
 	for _, a := range enum(n-1, s, r) {
 		out = append(out, &Q{K: "iter", A: a}, &Q{K: "index", A: a, V: 0}, &Q{K: "index", A: a, V: "a"},
 			&Q{K: "try", A: a}, &Q{K: "arr", A: a})
+		out = append(out, &Q{K: "str", Parts: []SPart{{Lit: "a"}, {Q: a}}})
+		out = append(out, &Q{K: "index", A: a, V: map[string]any{"start": 1, "end": nil}})
+		if !(a.K == "c" && a.V == nil) && !litKey(a) {
+			out = append(out, &Q{K: "slice", A: &Q{K: "id"}, B: nil, C: a})
+		}
+		out = append(out, &Q{K: "obj", Ents: []Ent{{Kind: "k", Key: "a", V: a}}},
+			&Q{K: "obj", Ents: []Ent{{Kind: "q", KQ: a, V: &Q{K: "c", V: 1}}, {Kind: "short", Key: "b"}}})
 	}
 	for _, a := range enum(n-1, s.withLbl(0), r) {
 		out = append(out, &Q{K: "label", N: 0, A: a})
@@ -437,9 +749,37 @@ func enum(n int, s scope, r *Rng) []*Q {
 				out = append(out, &Q{K: "pipe", A: a, B: b}, &Q{K: "comma", A: a, B: b}, &Q{K: "alt", A: a, B: b})
 				out = append(out, &Q{K: "try", A: a, B: guardHandler(a, b, s, r)})
 				out = append(out, &Q{K: "binop", F: binops[(len(out)/7)%len(binops)], SA: a, SB: b})
+				if (len(out)/5)%4 == 2 {
+					if !litKey(b) {
+						out = append(out, &Q{K: "indexq", A: a, B: b})
+					}
+					if !(litKey(a) && litKey(b)) && !(a.K == "c" && a.V == nil) && !(b.K == "c" && b.V == nil) {
+						out = append(out, &Q{K: "slice", A: &Q{K: "id"}, B: a, C: b})
+					}
+				}
+				if (len(out)/5)%4 == 3 {
+					out = append(out, &Q{K: "str", F: []string{"", "@json"}[(len(out)/20)%2], Parts: []SPart{{Q: a}, {Lit: "b"}, {Q: b}}})
+				}
+				if (len(out)/5)%3 == 0 {
+					out = append(out, &Q{K: "obj", Ents: []Ent{{Kind: "q", KQ: a, V: b}}})
+				} else if (len(out)/5)%3 == 1 {
+					out = append(out, &Q{K: "obj", Ents: []Ent{{Kind: "k", Key: "a", V: a}, {Kind: "k", Key: "b", V: b}}})
+				}
 			}
 			for _, b := range enum(n-1-i, s.withVar(0), r) {
 				out = append(out, &Q{K: "bind", A: a, N: 0, B: b})
+				var pat *Pat
+				switch (len(out) / 3) % 4 {
+				case 0:
+					pat = &Pat{K: "a", Elems: []*Pat{{K: "v", N: 0}}}
+				case 1:
+					pat = &Pat{K: "o", Ents: []PEnt{{Kind: "k", Key: "a", P: &Pat{K: "v", N: 0}}}}
+				case 2:
+					pat = &Pat{K: "a", Elems: []*Pat{{K: "v", N: 1}, {K: "a", Elems: []*Pat{{K: "v", N: 0}}}}}
+				default:
+					pat = &Pat{K: "o", Ents: []PEnt{{Kind: "kv", N: 0, P: &Pat{K: "a", Elems: []*Pat{{K: "v", N: 1}}}}}}
+				}
+				out = append(out, &Q{K: "bindp", A: a, Pat: pat, B: b})
 			}
 		}
 	}
@@ -583,6 +923,34 @@ func randQ(r *Rng, budget int, s scope) *Q {
 			return q
 		}
 	}
+	if r.Chance(1, 9) {
+		return randObj(r, b, s)
+	}
+	if r.Chance(1, 14) {
+		return randStr(r, b, s)
+	}
+	if r.Chance(1, 10) {
+		return randIndexing(r, b, s)
+	}
+	if r.Chance(1, 9) {
+		x, y := split()
+		next := []int{0, 10}[r.Intn(2)] // from 0: the pattern shadows variables of enclosing bindings (fresh slots)
+		pat := randPat(r, 2, &next, true)
+		bs := s
+		for _, v := range pat.vars() {
+			bs = bs.withVar(v)
+		}
+		var src *Q
+		switch r.Intn(4) {
+		case 0:
+			src = &Q{K: "c", V: destructPool[r.Intn(len(destructPool))]}
+		case 1:
+			src = &Q{K: "comma", A: &Q{K: "c", V: destructPool[r.Intn(len(destructPool))]}, B: randQ(r, x, s)}
+		default:
+			src = randQ(r, x, s)
+		}
+		return &Q{K: "bindp", A: src, Pat: pat, B: randQ(r, y, bs)}
+	}
 	switch r.Intn(20) {
 	case 17, 18, 19:
 		x, y := split()
@@ -600,6 +968,15 @@ func randQ(r *Rng, budget int, s scope) *Q {
 		return &Q{K: "binop", F: binops[r.Intn(len(binops))], SA: a, SB: bq}
 	case 0, 1:
 		x, y := split()
+		if r.Chance(1, 8) {
+			var tb *Q
+			if r.Chance(1, 2) {
+				tb = &Q{K: "iter", A: idQ}
+			} else {
+				tb = &Q{K: "index", A: idQ, V: keyPool[r.Intn(len(keyPool))]}
+			}
+			return &Q{K: "pipe", A: &Q{K: "index", A: idQ, V: keyPool[r.Intn(len(keyPool))]}, B: &Q{K: "try", A: tb}}
+		}
 		return &Q{K: "pipe", A: randQ(r, x, s), B: randQ(r, y, s)}
 	case 2, 3:
 		x, y := split()
@@ -649,6 +1026,247 @@ func randQ(r *Rng, budget int, s scope) *Q {
 		n := r.Intn(2)
 		return &Q{K: "bind", A: randQ(r, x, s), N: n, B: randQ(r, y, s.withVar(n))}
 	}
+}
+
+var objKeys = []string{"a", "b", "c"}
+
+// a key query: mostly string-valued (constants, generators of strings, a variable, .[k]), sometimes arbitrary
+func randKeyQ(r *Rng, budget int, s scope) *Q {
+	str := func() *Q { return &Q{K: "c", V: objKeys[r.Intn(len(objKeys))]} }
+	switch r.Intn(8) {
+	case 0, 1:
+		return str()
+	case 2:
+		return &Q{K: "comma", A: str(), B: str()}
+	case 3:
+		return &Q{K: "comma", A: str(), B: randQ(r, max(1, budget-2), s)}
+	case 4:
+		return &Q{K: "index", A: idQ, V: keyPool[r.Intn(len(keyPool))]}
+	case 5:
+		if len(s.vars) > 0 {
+			return &Q{K: "var", N: s.vars[r.Intn(len(s.vars))]}
+		}
+		return &Q{K: "pipe", A: str(), B: &Q{K: "id"}}
+	case 6:
+		return &Q{K: "try", A: randQ(r, max(1, budget-1), s), B: str()}
+	default:
+		return randQ(r, budget, s)
+	}
+}
+
+// an object construction: 1..3 entries of all the forms of compileObjectKeyVal
+func randObj(r *Rng, budget int, s scope) *Q {
+	n := 1 + r.Intn(3)
+	q := &Q{K: "obj"}
+	per := max(1, budget/(2*n))
+	for i := 0; i < n; i++ {
+		key := objKeys[r.Intn(len(objKeys))]
+		val := func() *Q {
+			if r.Chance(1, 4) {
+				return &Q{K: "c", V: simpleConsts[r.Intn(len(simpleConsts))]}
+			}
+			return randQ(r, 1+r.Intn(per), s)
+		}
+		switch r.Intn(9) {
+		case 0, 1, 2:
+			q.Ents = append(q.Ents, Ent{Kind: "k", Key: key, V: val()})
+		case 3:
+			q.Ents = append(q.Ents, Ent{Kind: "short", Key: key})
+		case 4:
+			if len(s.vars) > 0 {
+				q.Ents = append(q.Ents, Ent{Kind: "var", N: s.vars[r.Intn(len(s.vars))]})
+			} else {
+				q.Ents = append(q.Ents, Ent{Kind: "short", Key: key})
+			}
+		case 5:
+			if len(s.vars) > 0 {
+				q.Ents = append(q.Ents, Ent{Kind: "varkey", N: s.vars[r.Intn(len(s.vars))], V: val()})
+			} else {
+				q.Ents = append(q.Ents, Ent{Kind: "k", Key: key, V: val()})
+			}
+		case 6:
+			k := randStr(r, per, s)
+			k.F = ""
+			q.Ents = append(q.Ents, Ent{Kind: "strkey", KQ: k, V: val()})
+		default:
+			q.Ents = append(q.Ents, Ent{Kind: "q", KQ: randKeyQ(r, 1+r.Intn(per), s), V: val()})
+		}
+	}
+	return q
+}
+
+// is q printed as a literal number / string (Index.toIndexKey then makes the index a constant)?
+func litKey(q *Q) bool {
+	if q == nil {
+		return true
+	}
+	if q.K != "c" {
+		return false
+	}
+	switch q.V.(type) {
+	case int, string:
+		return true
+	}
+	return false
+}
+
+// an index / a slice bound: numbers, generators of numbers, length, a variable, .[k], sometimes anything
+func randBound(r *Rng, budget int, s scope) *Q {
+	num := func() *Q { return &Q{K: "c", V: []any{0, 1, 2, -1, -2, 3}[r.Intn(6)]} }
+	switch r.Intn(9) {
+	case 0, 1:
+		return num()
+	case 2:
+		return &Q{K: "comma", A: num(), B: num()}
+	case 3:
+		return &Q{K: "call0", F: "length"}
+	case 4:
+		return &Q{K: "index", A: idQ, V: keyPool[r.Intn(len(keyPool))]}
+	case 5:
+		if len(s.vars) > 0 {
+			return &Q{K: "var", N: s.vars[r.Intn(len(s.vars))]}
+		}
+		return &Q{K: "comma", A: num(), B: &Q{K: "c", V: "a"}}
+	case 6:
+		return &Q{K: "c", V: constPool[r.Intn(len(constPool))]}
+	case 7:
+		return &Q{K: "binop", F: "sub", SA: &Q{K: "call0", F: "length"}, SB: num()}
+	default:
+		// (a definition in front of a literal index is dropped by Query.toIndexKey: not generated)
+		q := randQ(r, budget, s)
+		if q.K == "def" {
+			q = &Q{K: "pipe", A: &Q{K: "id"}, B: q}
+		}
+		return q
+	}
+}
+
+// t[q] with a computed index, t[a:b] with computed bounds, or a slice with literal / absent bounds (a constant key)
+func randIndexing(r *Rng, budget int, s scope) *Q {
+	t := &Q{K: "id"}
+	if r.Chance(1, 2) {
+		t = randQ(r, max(1, budget/2), s)
+	}
+	per := max(1, budget/3)
+	if r.Chance(1, 8) {
+		k := randStr(r, per, s)
+		k.F = ""
+		return &Q{K: "indexq", A: t, B: k}
+	}
+	if r.Chance(1, 3) {
+		idx := randBound(r, per, s)
+		if litKey(idx) {
+			return &Q{K: "index", A: t, V: idx.V}
+		}
+		return &Q{K: "indexq", A: t, B: idx}
+	}
+	var a, b *Q
+	if r.Chance(3, 4) {
+		a = randBound(r, per, s)
+	}
+	if a == nil || r.Chance(3, 4) {
+		b = randBound(r, per, s)
+	}
+	if a != nil && a.K == "c" && a.V == nil {
+		a = nil // an explicit null bound is never printed: (c null) stands for an absent bound
+	}
+	if b != nil && b.K == "c" && b.V == nil {
+		b = nil
+	}
+	if a == nil && b == nil {
+		b = &Q{K: "c", V: 1}
+	}
+	if litKey(a) && litKey(b) {
+		var sv, ev any
+		if a != nil {
+			sv = a.V
+		}
+		if b != nil {
+			ev = b.V
+		}
+		if _, ok := sv.(string); ok {
+			sv = 0
+		}
+		if _, ok := ev.(string); ok {
+			ev = 1
+		}
+		return &Q{K: "index", A: t, V: map[string]any{"start": sv, "end": ev}}
+	}
+	return &Q{K: "slice", A: t, B: a, C: b}
+}
+
+// an interpolated string: literal segments and 1..3 interpolated queries, optionally with @text / @json
+func randStr(r *Rng, budget int, s scope) *Q {
+	q := &Q{K: "str", F: []string{"", "", "@text", "@json"}[r.Intn(4)]}
+	n := 1 + r.Intn(3)
+	lits := []string{"a", "b", "xy", " "}
+	if r.Chance(1, 2) {
+		q.Parts = append(q.Parts, SPart{Lit: lits[r.Intn(len(lits))]})
+	}
+	for i := 0; i < n; i++ {
+		var e *Q
+		switch r.Intn(4) {
+		case 0:
+			e = &Q{K: "comma", A: &Q{K: "c", V: 1}, B: &Q{K: "c", V: "s"}}
+		case 1:
+			e = &Q{K: "id"}
+		default:
+			e = randQ(r, 1+r.Intn(max(1, budget/n)), s)
+		}
+		q.Parts = append(q.Parts, SPart{Q: e})
+		if i < n-1 && r.Chance(1, 2) || i == n-1 && r.Chance(1, 2) {
+			q.Parts = append(q.Parts, SPart{Lit: lits[r.Intn(len(lits))]})
+		}
+	}
+	return q
+}
+
+// shapes near the precondition of compileObject's constant folding (every entry  push k; load v; const c)
+func nearFoldObj(r *Rng) *Q {
+	n := 1 + r.Intn(3)
+	q := &Q{K: "obj"}
+	cst := func() *Q {
+		switch r.Intn(6) {
+		case 0:
+			return &Q{K: "arr", A: randCP(r, 2)}
+		case 1:
+			return &Q{K: "c", V: constPool[r.Intn(len(constPool))]}
+		case 2:
+			return &Q{K: "obj", Ents: []Ent{{Kind: "k", Key: "a", V: &Q{K: "c", V: 1}}}}
+		default:
+			return &Q{K: "c", V: simpleConsts[r.Intn(len(simpleConsts))]}
+		}
+	}
+	for i := 0; i < n; i++ {
+		q.Ents = append(q.Ents, Ent{Kind: "k", Key: objKeys[r.Intn(len(objKeys))], V: cst()})
+	}
+	for k := r.Intn(3); k > 0; k-- {
+		i := r.Intn(n)
+		e := q.Ents[i]
+		if e.Kind != "k" {
+			continue
+		}
+		switch r.Intn(8) {
+		case 0:
+			e.V = &Q{K: "pipe", A: e.V, B: &Q{K: "id"}}
+		case 1:
+			e.V = &Q{K: "pipe", A: &Q{K: "id"}, B: e.V}
+		case 2:
+			e.V = &Q{K: "id"} // push k; load v  (2 instructions)
+		case 3:
+			e.V = &Q{K: "pipe", A: e.V, B: cst()} // push k; load v; const; const
+		case 4:
+			e = Ent{Kind: "short", Key: e.Key}
+		case 5:
+			e = Ent{Kind: "q", KQ: &Q{K: "c", V: e.Key}, V: e.V} // load v; const k; load v; const c
+		case 6:
+			e.V = &Q{K: "comma", A: e.V, B: cst()}
+		default:
+			e.V = &Q{K: "pipe", A: &Q{K: "comma", A: e.V, B: &Q{K: "id"}}, B: cst()}
+		}
+		q.Ents[i] = e
+	}
+	return q
 }
 
 // terminating recursive definitions (the recursion is guarded by `. < k`, which fails for strings, arrays and
@@ -896,6 +1514,9 @@ func runC01vm(c *Ctx) {
 		q := &Q{K: "arr", A: randCP(r, 1+r.Intn(4))}
 		if r.Chance(1, 2) {
 			q = nearFold(r)
+		}
+		if r.Chance(1, 3) {
+			q = nearFoldObj(r)
 		}
 		if r.Chance(1, 3) {
 			q = &Q{K: "pipe", A: q, B: &Q{K: "iter", A: &Q{K: "id"}}}
